@@ -3,16 +3,20 @@ package node
 import "math"
 
 func findMedianAndSplitData(values []int) (median float64, a []int, b []int) {
+	if len(values) == 0 {
+		return 0, values, values
+	}
+
+	idx := len(values) / 2
+
 	if len(values)%2 == 0 {
 		// median is the average of the two middle integers
-		idx := len(values) / 2
-		median = float64(values[idx]+values[idx+1]) / 2
+		median = float64(values[idx-1]+values[idx]) / 2
 
 		a = values[:idx]
 		b = values[idx:]
 	} else {
 		// median is the middle value
-		idx := int(math.Floor(float64(len(values))/2)) + 1
 		median = float64(values[idx])
 
 		a = values[:idx]
